@@ -18,6 +18,8 @@ use std::time::Duration;
 use vhost::vhost_user::BackendReqHandler;
 
 pub struct ServerRig {
+    /// kernel thread id of the server thread
+    pub srv_tid: Arc<std::sync::atomic::AtomicI32>,
     pub peer: UnixStream,
     pub srv_dup: UnixStream,
     pub core: Arc<Core>,
@@ -31,7 +33,9 @@ fn run_server<S: vhost::vhost_user::VhostUserBackendReqHandler + Send + Sync + '
     mut h: BackendReqHandler<S>,
     cmd: Receiver<bool>,
     res: Sender<String>,
+    tid: Arc<std::sync::atomic::AtomicI32>,
 ) {
+    tid.store(gettid(), std::sync::atomic::Ordering::SeqCst);
     while let Ok(go) = cmd.recv() {
         if !go {
             break;
@@ -56,14 +60,17 @@ impl ServerRig {
         let core = Core::new();
         let (ctx, crx) = channel::<bool>();
         let (rtx, rrx) = channel::<String>();
+        let srv_tid = Arc::new(std::sync::atomic::AtomicI32::new(0));
+        let st2 = srv_tid.clone();
         let thread = if adapter == "direct" {
             let h = BackendReqHandler::from_stream(srv, core.clone());
-            std::thread::spawn(move || run_server(h, crx, rtx))
+            std::thread::spawn(move || run_server(h, crx, rtx, st2))
         } else {
             let h = BackendReqHandler::from_stream(srv, Arc::new(Mutex::new(CoreMut(core.clone()))));
-            std::thread::spawn(move || run_server(h, crx, rtx))
+            std::thread::spawn(move || run_server(h, crx, rtx, st2))
         };
         ServerRig {
+            srv_tid,
             peer,
             srv_dup,
             core,
@@ -107,9 +114,12 @@ impl ServerRig {
         if let Some(r) = self.early.borrow_mut().take() {
             return r;
         }
-        match self.res.recv_timeout(Duration::from_millis(timeout_ms)) {
-            Ok(s) => s,
-            Err(_) => {
+        // "the server does not return" = the watchdog has expired and the server thread is seen asleep in a blocking call with
+        // nothing left to read on its socket; a slow machine only makes this wait longer
+        let tids = || vec![self.srv_tid.load(std::sync::atomic::Ordering::SeqCst)];
+        match recv_or_blocked(&self.res, Duration::from_millis(timeout_ms), Duration::from_secs(120), &tids, &[self.srv_dup.as_raw_fd()]) {
+            Some(s) => s,
+            None => {
                 // unblock the server: shut the socket down, then collect the result
                 let _ = self.srv_dup.shutdown(std::net::Shutdown::Both);
                 let late = self
@@ -122,6 +132,7 @@ impl ServerRig {
     }
 
     pub fn finish(mut self) {
+        storm_release();
         let _ = self.cmd.send(false);
         let _ = self.peer.shutdown(std::net::Shutdown::Both);
         if let Some(t) = self.thread.take() {
@@ -213,10 +224,17 @@ pub fn do_step_ex(rig: &ServerRig, step: &Value, rng: &mut Rng) -> (Value, Vec<(
         let r = rig.wait_result(3000);
         res = if first == "ok" { r } else { format!("setup:{first}") };
     } else if seg.is_empty() && cut < 0 {
+        // (no receive script without segmentation: the position of a fault inside the message would not be defined)
         sent_ok = raw_send_all(&rig.peer, &bytes, &fds).is_ok();
         res = rig.serve_once(3000);
     } else {
         // real segment boundaries: write a segment, wait until the receiver has drained it
+        // "recvfault": temporary receive conditions met by the server's receive attempts, by position (0 = the attempt goes
+        // through); only meaningful for a split inside the header, where attempt k+1 continues the header's reassembly
+        let recvfault: Vec<i32> = step["recvfault"].as_array().map(|a| a.iter().map(|x| x.as_i64().unwrap_or(0) as i32).collect()).unwrap_or_default();
+        if !recvfault.is_empty() {
+            crate::eng_sender::arm_recv(&rig.srv_dup, &recvfault);
+        }
         rig.start_serve();
         let end = if cut >= 0 { cut as usize } else { bytes.len() };
         let mut bounds: Vec<usize> = seg.iter().cloned().filter(|x| *x < end).collect();
@@ -238,6 +256,9 @@ pub fn do_step_ex(rig: &ServerRig, step: &Value, rng: &mut Rng) -> (Value, Vec<(
             let _ = rig.peer.shutdown(std::net::Shutdown::Write);
         }
         res = rig.wait_result(3000);
+        if !recvfault.is_empty() {
+            crate::eng_sender::disarm_recv();
+        }
     }
     let leftover = fionread(rig.srv_dup.as_raw_fd());
     let (chunks, eof) = raw_drain(&rig.peer);
